@@ -1,0 +1,53 @@
+//go:build verif
+
+package verifhook
+
+import "sync/atomic"
+
+var counters [NumSites]atomic.Uint64
+
+var yieldFn atomic.Pointer[func(site int)]
+
+// Count records one step at site.
+func Count(site int) { counters[site].Add(1) }
+
+// Yield calls the installed yield function, if any.
+func Yield(site int) {
+	if f := yieldFn.Load(); f != nil {
+		(*f)(site)
+	}
+}
+
+// SetYield installs (or with nil removes) the function Yield calls.
+func SetYield(f func(site int)) {
+	if f == nil {
+		yieldFn.Store(nil)
+		return
+	}
+	yieldFn.Store(&f)
+}
+
+// Snapshot returns the current value of every counter.
+func Snapshot() [NumSites]uint64 {
+	var out [NumSites]uint64
+	for i := range counters {
+		out[i] = counters[i].Load()
+	}
+	return out
+}
+
+// Total returns the sum of all counters.
+func Total() uint64 {
+	var t uint64
+	for i := range counters {
+		t += counters[i].Load()
+	}
+	return t
+}
+
+// Reset zeroes every counter.
+func Reset() {
+	for i := range counters {
+		counters[i].Store(0)
+	}
+}
